@@ -190,6 +190,31 @@ func templates() []tmpl {
 	add("J-multiUse", false,
 		kMap+"c.multiUse({s:l->l.sum(), n:l->l.size()+$})",
 		"numbers(4).map(e->e+$).multiUse({p:l->l.map(e->e*2), q:l->l.reduce((x,y)->x+y)})")
+	// L: one call site reached with receivers of different kinds in different evaluations (a map with a
+	// closure stored under a method's name, a plain map, a list, a string)
+	add("L-call-site-receivers", false,
+		"(if $>0 then {get:k->\"closure:\"+k, a:\"field\"} else {a:\"plain\"}).get(\"a\")",
+		"(if $=0 then {get:k->\"closure:\"+k, a:\"field\"} else {a:\"plain\"}).get(\"a\")",
+		"let o=if $>0 then {size:k->k+100, a:1} else {a:2,b:3}; try o.size(1) catch try o.size() catch -1",
+		"let f=o->o.get(\"a\"); f(if $=1 then {a:\"p\"} else {get:k->k+\"!\",a:\"f\"})",
+		"[{a:\"plain\"},{get:k->\"c:\"+k,a:\"f\"},{a:\"again\"}].map(o->o.get(\"a\"))[$]",
+		"(if $>0 then [1,2,3] else {a:1}).size()",
+		"(if $=1 then \"abc\" else if $=0 then [1,2] else {k:1}).string()",
+		"let g=(o,k)->try o.map(e->e+k) catch try o.map((key,e)->e+k) catch -1; g(if $>0 then [1,2] else {a:1}, $)")
+	// M: an index access inside a closure that runs while an enclosing list is being indexed, both lists
+	// lazy; the inner one is a constant that the first evaluation materialises
+	for _, inner := range []string{
+		"let c=[10,20,30,40].combine((p,q)->p+q); ",
+		"let c=[10,20,30].number((n,x)->x+n); ",
+		kMap,
+	} {
+		add("M-nested-index", false,
+			inner+"numbers(3).number((n,x)->c[n]+x+$)[1]",
+			inner+"[0,1,2,0].combine((p,q)->c[p]+c[q]+$)[2]",
+			inner+"numbers(3).map(x->c[x]+$)[2]",
+			inner+"numbers(3).number((n,x)->c[n]+x+$).sum()",
+			inner+"numbers(3).number((n,x)->c[n]+x).number((n,x)->c[2-n]+x+$)[0]")
+	}
 	// K: programs that are entirely constant
 	add("K-all-constant", false,
 		"[1,2,3].map(e->e*2)",
